@@ -584,3 +584,51 @@ CONTRACTS["scale.d3_scale_linearTicks"] = {
         ("domain_untouched", "domain[0] == old(domain[0]) and domain[1] == old(domain[1])"),
     ],
 }
+
+
+# ---------------------------------------------------------------------------------------------------------------------
+# C16: TimeScale.ticks(count) for calendar spacings (one second .. one year per tick).  Everything is inlined (domain(),
+# d3_scaleExtent, dt2milli / milli2dt, the real tickMethod - which picks a concrete row of the real table on each path)
+# except the enumeration itself: interval.range(..) is summarised by contracts/d3time.RANGE_SUMMARY, i.e. by the clauses
+# that the range@<unit>_* contracts prove.  The scale's domain holds two ms-resolution instants (setup below).
+# ---------------------------------------------------------------------------------------------------------------------
+from contracts.d3time import RANGE_SUMMARY  # noqa: E402
+
+
+def _setup_ticks(E, P, env):
+    outs = []
+    for (p, e) in setup_time_scale(E, P, env):
+        _set_ms_domain(E, p, e)                        # domain = [t0, t1] in epoch milliseconds
+        for t in (e["t0"], e["t1"]):
+            p.assume(t.payload[0] % 1000 == 0)         # ms resolution (the quantifier of C16)
+        outs.append((p, e))
+    return outs
+
+
+_TLO, _THI = "min(us(t0), us(t1))", "max(us(t0), us(t1))"
+
+
+def _ticks_req(n):
+    # calendar spacings: at least one second and less than one year per requested tick
+    return ["(%s - %s) >= %d" % (_THI, _TLO, 1000 * 1000 * n), "(%s - %s) < %d" % (_THI, _TLO, 31536000000 * 1000 * n)]
+
+
+CONTRACTS["scale.TimeScale.ticks"] = {
+    "props": ["C16"], "heap": True, "setup": _setup_ticks,
+    "params": {"t0": "dt", "t1": "dt", "skip": "none"},
+    # the requested count is CONCRETE per case (None = the default 10): with a symbolic count the branch conditions of the
+    # row choice are non-linear (span / count) and infeasible rows could not be pruned
+    "cases": [{"params": {"interval": "none"}, "requires": _ticks_req(10)}] +
+             [{"params": {"interval": (lambda E, P, name, n=n: I(n))}, "requires": _ticks_req(n)} for n in (2, 5, 7, 17, 50)],
+    # thorough tier only (138 paths per count, ~40 s each): the default count and 5
+    "thorough_tier_only": True, "quick_cases": [0, 2], "thorough_cases": [0, 2],
+    "requires": ["in_range_us(t0)", "in_range_us(t1)", "us(t0) != us(t1)", "%s + 1000 < %d" % (_THI, 84371 * 86400 * 10 ** 6)],
+    "modifies": ["list.len.dt", "list.elems.dt"], "allocates": ["list"],
+    "callee_contracts": RANGE_SUMMARY,
+    "ensures": [
+        ("inside_the_domain", "forall(lambda k: implies(0 <= k < len(result), %s <= us(result[k]) <= %s))" % (_TLO, _THI)),
+        ("strictly_increasing", "forall(lambda k: implies(1 <= k < len(result), us(result[k - 1]) < us(result[k])))"),
+        # whatever row is chosen, a tick is at least a whole second
+        ("on_whole_seconds", "forall(lambda k: implies(0 <= k < len(result), us(result[k]) % 1000000 == 0))"),
+    ],
+}
